@@ -1512,7 +1512,9 @@ def evaluate__function_lookup(self: XPathFunction, context: ta.ContextType = Non
         except KeyError:
             return []
 
-    assert issubclass(cls, XPathFunction)
+    if not issubclass(cls, XPathFunction):
+        return []
+
     try:
         func = cls(self.parser, nargs=arity)
     except TypeError:
